@@ -44,9 +44,55 @@ from qv.harness import obligation, Skip
 
 PROP = "C14"
 META = {
-    "bounds": {},
-    "outside": [],
-    "assumptions": [],
+    "bounds": {
+        "quick": {
+            "1-norm receivers (scalar networks)": "pair, path of 3, star of 4 (centre + 3 leaves); hyper flavours also a label on 3 tensors "
+                                                  "(hyper3) and the 5-tensor hyperstar; lazy: 3 sites with inner tensors / a double bond",
+            "2-norm receivers (states with physical labels)": "path of 3 (D2BP), 3 lazy sites with an inner tensor / a double bond (L2BP), "
+                                                              "pair for gauging / compression",
+            "dimensions": "bond 2, physical 1-2",
+            "entries": "strictly positive symbols (every flavour, value + messages + marginals); signed real and complex symbols "
+                       "(messages, marginals, local values; contract() where listed under thorough/outside)",
+            "options": "normalize in {L1, L2 (default), Linf, callable sum, callable idempotent L1, callable trace}, update sequential / parallel, "
+                       "local_convergence True / False, strip_exponent, symbolic stored exponent, symbolic initial messages (dict / fill "
+                       "function), damping (symbolic factor and 1/4) at the fixed point, tensor orders",
+            "iterations": "number of tensors (sites) + 1 (+ number of labels for the dense hyper flavour), tol = 0",
+        },
+        "thorough": {
+            "adds": "path of 4, forest (two components, lazy: + a disconnected scalar site), bond 3 and mixed bonds 1/2/3 (D1BP), every "
+                    "normalisation x schedule cell per receiver, star / path of 4 / forest for D2BP, lazy star of 4, complex entries for "
+                    "gauging / compression, path of 3 for gauging / compression, all gauge entry points",
+        },
+    },
+    "outside": [
+        "floating point rounding; networks with cycles (BP is approximate there by design)",
+        "the library's built-in message *distance* functions and convergence flags in symbolic mode (they call float() on the distance): "
+        "the documented callable `distance=` is supplied (0.0 iff old and new message are identical); built-in distances, tolerances and "
+        "the `converged` flag are exercised in the numeric cross-run of the same harnesses ([numeric-only] goals)",
+        "HV1BP default `ones` initial messages (allocates float arrays): messages are passed as a dict; numeric cross-run uses the default",
+        "smudge_factor=1e-12 (default of HD1BP / HV1BP: added to denominators, perturbs the result by O(1e-12)): symbolic runs use the "
+        "documented smudge_factor=0.0, numeric cross-runs the default",
+        "contract() on real signed data beyond 5 local regions (2**k sign paths; the non-linear branch feasibility queries time out) and "
+        "D2BP / L2BP contract() on signed / complex states (abs() of a real-valued polynomial): numeric-only there; the equivalent "
+        "abs-free identity prod(tensor regions) == value * prod(message overlaps) is symbolic",
+        "D2BP contract() value on 4 connected tensors in symbolic mode (expanded product of local values > 10**5 terms): numeric-only",
+        "contract_gloop_expand / contract_with_loops / contract_loop_series_expansion / normalize_message_pairs / normalize_messages "
+        "(fractional powers 1/4, 1/len of overlaps), get_gauged_tn (non-symmetric eig), sample_* (random), diis=True, thread pools: "
+        "numeric-only supplement for contract_gloop_expand, the others not covered",
+        "D2BP power != 1 / smudge != 0 message conditioning, D2BP.gate_, truncating compressions (approximate by design)",
+        "bond dimension 3 for the hyper / lazy / 2-norm flavours (sizes of the cleared polynomials)",
+    ],
+    "assumptions": [
+        "every quantity a message is normalised by and every local region value is non-zero (divisions; generic data)",
+        "symbolic Linf normalisation: max(abs(.)) is replaced by an arbitrary positive factor (the results are scale invariant)",
+        "LAPACK eigh / svd meet their contracts (stubs); message matrices of a generic state are positive definite (eigenvalues are "
+        "positive symbols), singular values positive",
+        "square-matrix inverse theorem (Pr Pl = 1 => Pl Pr = 1 for square Pl, Pr) is used as a cited lemma after Pr Pl = 1 has been "
+        "certified from the stub contracts (gauging / compression goals)",
+        "callable normalisers used in symbolic mode skip the division when the norm is identically 1 (HD1BP / HV1BP normalise already "
+        "normalised messages a second time; dividing by 1 is the identity)",
+    ],
+    "timeout_s": {"quick": 400, "thorough": 900},
 }
 
 _Q = ("quick", "thorough")
@@ -72,7 +118,7 @@ def sdist(x, y):
     x = np.asarray(x.data if isinstance(x, qtn.Tensor) else x)
     y = np.asarray(y.data if isinstance(y, qtn.Tensor) else y)
     if x.dtype != object and y.dtype != object:
-        return 0.0 if np.array_equal(x, y) else 1.0
+        return float(np.max(np.abs(x - y))) if x.size else 0.0
     for a, b in zip(x.reshape(-1), y.reshape(-1)):
         if (P.lift(a) - P.lift(b)).t:
             return 1.0
@@ -141,6 +187,15 @@ def prop_goal(mk, label, m, e):
         lhs = [v / sc for v in lhs]
         rhs = [v / sc for v in rhs]
     mk.eq(label, lhs, rhs)
+
+
+def converged_goal(mk, label, info):
+    """the last round left every message unchanged: identical polynomials (symbolic) / within 1e-12 (numeric: a flavour that
+    divides an already normalised message by its norm again changes the last bits)"""
+    if mk.sym:
+        mk.same(label, info["max_mdiff"], 0.0)
+    else:
+        mk.same(label, bool(info["max_mdiff"] <= 1e-12), True)
 
 
 def value(res):
@@ -304,7 +359,7 @@ def d1bp_exact(mk, geom, norm, update):
         info = {}
         bp.run(info=info, **ro)
         if norm != "Linf":   # (symbolic Linf: every max() is abstracted by a fresh positive factor, so messages never repeat syntactically)
-            mk.same(f"local_convergence={lc}: last round changed nothing (max_mdiff == 0)", info["max_mdiff"], 0.0)
+            converged_goal(mk, f"local_convergence={lc}: last round changed nothing (max_mdiff == 0)", info)
         d1_messages_exact(mk, bp, fg, f"local_convergence={lc}")
         mk.eq(f"D1BP.contract() local_convergence={lc} == exact value", bp.contract(), Z)
         # local values: product of tensor regions == Z * product of message overlaps
@@ -357,7 +412,7 @@ def d1bp_signed(mk, geom, kind):
     bp = d1bp.D1BP(tn, normalize=nsum, distance=sdist, update="parallel" if geom == "path4" else "sequential")
     info = {}
     bp.run(info=info, **run_opts(mk, tn))
-    mk.same("last round changed nothing", info["max_mdiff"], 0.0)
+    converged_goal(mk, "last round changed nothing", info)
     d1_messages_exact(mk, bp, fg, kind)
     local_product_goal(mk, f"{kind}: prod local_tensor_contract * 10**exponent == Z * prod local_message_contract", bp, fg, Z)
     if kind == "cplx" or geom in ("path3", "star4"):
@@ -552,7 +607,7 @@ def hd1bp_exact(mk, geom, norm, update):
     bp = hd1bp.HD1BP(tn, **kw)
     info = {}
     bp.run(info=info, **ro)
-    mk.same("last round changed nothing (max_mdiff == 0)", info["max_mdiff"], 0.0)
+    converged_goal(mk, "last round changed nothing (max_mdiff == 0)", info)
     hyper_messages_exact(mk, bp.messages, bp.tn, fg, "HD1BP")
     mk.eq("HD1BP.contract() == exact value", bp.contract(), Z)
     marginal_goals(mk, bp.tn, bp.messages, fg, "HD1BP")
@@ -624,6 +679,8 @@ def hd1bp_signed(mk, geom, kind):
 _HV = []
 for g_ in HYPER_GEOMS:
     for nz_ in ("L1x", "sum", "L1", "L2"):
+        if nz_ in ("L1", "L2") and g_ not in ("path3", "hyper3", "forest"):
+            continue      # built-in normalisers re-normalise the rank-2 label inputs on every round (nested inverses): small receivers only
         quick = (g_ in ("hyper3", "path3") and nz_ in ("L1x", "sum")) or (g_ in ("star4",) and nz_ == "L1x")
         _HV.append({"geom": g_, "norm": nz_, "_tiers": _Q if quick else _T})
 
@@ -651,7 +708,7 @@ def hv1bp_exact(mk, geom, norm):
     info = {}
     bp.run(info=info, **ro)
     if norm in ("L1x", "sum"):
-        mk.same("last round changed nothing (max_mdiff == 0)", info["max_mdiff"], 0.0)
+        converged_goal(mk, "last round changed nothing (max_mdiff == 0)", info)
     elif not mk.sym:
         # built-in normalisers re-divide the rank-2 label inputs by their (unit) norm on every round: the messages
         # keep changing in the last bits (numeric) / syntactically (symbolic) although they are converged
@@ -718,25 +775,13 @@ def build_lazy1(mk, geom, kind="pos"):
     return qtn.TensorNetwork(ts), tuple(LAZY1[geom])
 
 
-def lazy_messages_exact(mk, bp, tn, fg, tag, two_norm=False):
+def lazy_messages_exact(mk, bp, tn, fg, tag):
     site_tids = {s: set(tn._get_tids_from_tags(s)) for s in bp.site_tags}
     for (i, j), tm in bp.messages.items():
         bix = bp.edges[(i, j) if i < j else (j, i)]
         sub = fg.reach(site_tids[i], blocked_tids=site_tids[j])
-        if not two_norm:
-            want = fg.sop(sub, bix)
-            got = tm.transpose(*bix).data
-        else:
-            terms = [fg.terms[t] for t in sorted(sub)]
-            cterms = [(conj(a), tuple(ix + "*" if ix in bix else ix for ix in inds)) for a, inds in terms]
-            # bra copy: bonds inside the sub-tree get their own labels, outer (physical) labels are shared
-            inner = {ix for _, inds in terms for ix in inds if len(fg.ind_map[ix]) >= 2 and ix not in bix}
-            cterms = [(a, tuple(ix + "'" if ix in inner else ix for ix in inds)) for a, inds in cterms]
-            cix = tuple(ix + "*" for ix in bix)
-            want = ref.sum_of_products(terms + cterms, cix + bix)
-            got = tm.transpose(*[ix for ix in tm.inds if ix not in bix], *bix).data
-            mk.same(f"{tag}: message {i}->{j} carries (bra.., ket..) labels", tuple(tm.inds[len(bix):]) == tuple(bix) or set(tm.inds[len(bix):]) == set(bix), True)
-        prop_goal(mk, f"{tag}: message {i}->{j} over {bix} proportional to the exact cavity contraction", got, want)
+        prop_goal(mk, f"{tag}: message {i}->{j} over {bix} proportional to the exact cavity contraction",
+                  tm.transpose(*bix).data, fg.sop(sub, bix))
 
 
 _L1 = []
@@ -763,7 +808,7 @@ def l1bp_exact(mk, geom, norm, update):
         bp = l1bp.L1BP(tn, local_convergence=lc, **kw)
         info = {}
         bp.run(info=info, **ro)
-        mk.same(f"local_convergence={lc}: last round changed nothing (max_mdiff == 0)", info["max_mdiff"], 0.0)
+        converged_goal(mk, f"local_convergence={lc}: last round changed nothing (max_mdiff == 0)", info)
         lazy_messages_exact(mk, bp, bp.tn, fg, f"L1BP lc={lc}")
         mk.eq(f"L1BP.contract() local_convergence={lc} == exact value", bp.contract(), Z)
     if norm == "L1":
@@ -921,6 +966,11 @@ GEOMS2 = {
 }
 
 
+# physical dimensions (kept small on the 4-tensor receivers: the value goals expand polynomials of degree 2 * #tensors)
+PHYS2 = {"pair": {0: 2, 1: 2}, "path3": {0: 2, 1: 2, 2: 2}, "star4": {0: 1, 1: 2, 2: 1, 3: 1}, "path4": {0: 2, 1: 1, 2: 1, 3: 2},
+         "forest": {0: 2, 1: 2, 2: 2, 3: 2}}
+
+
 def build2(mk, geom, kind="pos", D=2, d=2, phys=None):
     """vector network: site i carries the physical label k{i} (dimension d) and tag I{i}"""
     n, edges = GEOMS2[geom]
@@ -930,7 +980,7 @@ def build2(mk, geom, kind="pos", D=2, d=2, phys=None):
         inds[b].append(f"b{a}{b}")
     ts = []
     for i in range(n):
-        di = (phys or {}).get(i, d)
+        di = (phys or PHYS2[geom]).get(i, d)
         shape = (D,) * len(inds[i]) + (di,)
         ts.append(qtn.Tensor(arr(mk, f"T{i}", shape, kind), tuple(inds[i]) + (f"k{i}",), tags=[f"I{i}"]))
     tn = qtn.TensorNetworkGenVector.from_TN(qtn.TensorNetwork(ts), site_tag_id="I{}", site_ind_id="k{}", sites=tuple(range(n)))
@@ -1014,15 +1064,23 @@ def d2bp_exact(mk, geom, norm, update):
     N2 = fg.norm2()
     kw = dict(normalize=NORMS2[norm], distance=sdist, update=update)
     ro = dict(max_iterations=n + 1, tol=0.0)
-    mk.eq(f"contract_d2bp({geom}, normalize={norm}, update={update}) == <psi|psi>", d2bp.contract_d2bp(tn, **kw, **ro), N2)
-    mk.eq("contract_d2bp(strip_exponent=True)", value(d2bp.contract_d2bp(tn, strip_exponent=True, **kw, **ro)), N2)
+    # value goals multiply out the product of all local values (each one is <psi|psi> times normalisers): with 4 connected
+    # tensors that is > 10**5 terms before denominators are cleared -> numeric-only there (messages / reduced states stay symbolic)
+    heavy = mk.sym and geom in ("star4", "path4")
+    if heavy:
+        mk.note("4 connected tensors: contract() value goals are numeric-only (expanded product of the local values too large); "
+                "messages, reduced density matrices and marginals are symbolic")
+    else:
+        mk.eq(f"contract_d2bp({geom}, normalize={norm}, update={update}) == <psi|psi>", d2bp.contract_d2bp(tn, **kw, **ro), N2)
+        mk.eq("contract_d2bp(strip_exponent=True)", value(d2bp.contract_d2bp(tn, strip_exponent=True, **kw, **ro)), N2)
     for lc in (True, False):
         info = {}
         bp = d2bp.converge_d2bp(tn, local_convergence=lc, info=info, **kw, **ro)
-        mk.same(f"local_convergence={lc}: last round changed nothing (max_mdiff == 0)", info["max_mdiff"], 0.0)
+        converged_goal(mk, f"local_convergence={lc}: last round changed nothing (max_mdiff == 0)", info)
         d2_messages_exact(mk, bp, fg, f"lc={lc}")
-    mk.eq("D2BP.contract() == <psi|psi>", bp.contract(), N2)
-    d2_local_product(mk, "prod local_tensor_contract == <psi|psi> * prod <m_ab, m_ba>", bp, fg, N2)
+    if not heavy:
+        mk.eq("D2BP.contract() == <psi|psi>", bp.contract(), N2)
+        d2_local_product(mk, "prod local_tensor_contract == <psi|psi> * prod <m_ab, m_ba>", bp, fg, N2)
     # reduced density matrices / marginals from the messages
     wheres = [(0,), (n - 1,), (0, 1)] + ([(1, 0)] if geom == "path3" else [])
     for where in wheres:
@@ -1034,9 +1092,10 @@ def d2bp_exact(mk, geom, norm, update):
         prop_goal(mk, f"D2BP.partial_trace({where}, normalized=False) proportional to the exact reduced density matrix", rho_u, rho_w)
     for i in range(n):
         p = bp.compute_marginal(f"k{i}")
-        diag = np.array([fg.rdm((f"k{i}",))[x, x] for x in range(2)], dtype=object if mk.sym else None)
+        r_i = fg.rdm((f"k{i}",))
+        diag = np.array([r_i[x, x] for x in range(r_i.shape[0])], dtype=object if mk.sym else None)
         mk.eq(f"D2BP.compute_marginal(k{i}) * <psi|psi> == diagonal of the exact reduced density matrix", p * N2, diag)
-    if norm == "L1" and update == "sequential":
+    if norm == "L1" and update == "sequential" and not heavy:
         # symbolic initial messages
         init = {}
         for ix, tids in tn.ind_map.items():
@@ -1057,7 +1116,8 @@ def d2bp_exact(mk, geom, norm, update):
 
 
 @obligation(PROP, params=[{"geom": g, "kind": k, "_tiers": _Q if (g, k) in (("path3", "cplx"), ("pair", "real")) else _T}
-                          for g in ("pair", "path3", "star4") for k in ("real", "cplx")], wall_s=500, timeout_s=600, max_paths=300)
+                          for g, k in (("pair", "real"), ("pair", "cplx"), ("path3", "real"), ("path3", "cplx"), ("star4", "real"))],
+            wall_s=500, timeout_s=600, max_paths=300)
 def d2bp_signed(mk, geom, kind):
     """D2BP on signed real / complex states (normalize = callable m / trace(m)): messages, local values, reduced density
     matrices.  contract() takes abs() of every (real-valued, mathematically non-negative) local value: for real data the
@@ -1081,12 +1141,14 @@ def d2bp_signed(mk, geom, kind):
 
 
 LAZY2 = {
-    # site tag -> list of (tensor name, bond labels, has physical label)
-    "lpair": {"I0": [("T0", "ap", True), ("T0b", "p", False)], "I1": [("T1", "a", True)]},
-    "lpath3": {"I0": [("T0", "ap", True), ("T0b", "p", False)], "I1": [("T1", "ab", True)], "I2": [("T2", "b", True)]},
-    "lmulti": {"I0": [("T0", "ac", True)], "I1": [("T1", "ap", True), ("T1b", "cpb", False)], "I2": [("T2", "b", True)]},
-    "lstar4": {"I0": [("T0", "abc", True)], "I1": [("T1", "a", True)], "I2": [("T2", "bp", True), ("T2b", "p", False)], "I3": [("T3", "c", True)]},
+    # site tag -> list of (tensor name, bond labels, dimension of the physical label or 0); sizes are kept small:
+    # the value goals expand products of all site values (degree 2 * number of tensors)
+    "lpair": {"I0": [("T0", "ap", 2), ("T0b", "p", 0)], "I1": [("T1", "a", 2)]},
+    "lpath3": {"I0": [("T0", "ap", 1), ("T0b", "p", 0)], "I1": [("T1", "ab", 2)], "I2": [("T2", "b", 1)]},
+    "lmulti": {"I0": [("T0", "ac", 2)], "I1": [("T1", "acb", 1)], "I2": [("T2", "b", 1)]},
+    "lstar4": {"I0": [("T0", "abc", 1)], "I1": [("T1", "a", 2)], "I2": [("T2", "bp", 1), ("T2b", "p", 0)], "I3": [("T3", "c", 1)]},
 }
+LAZY2_DIMS = {"lstar4": {"c": 1}}      # bond c of the star has dimension 1
 
 
 def build_lazy2(mk, geom, kind="pos"):
@@ -1096,7 +1158,8 @@ def build_lazy2(mk, geom, kind="pos"):
         i = int(s[1:])
         for name, bonds, phys in lst:
             inds = tuple(bonds) + ((f"k{i}",) if phys else ())
-            ts.append(qtn.Tensor(arr(mk, name, (2,) * len(inds), kind), inds, tags=[name, s]))
+            shape = tuple(LAZY2_DIMS.get(geom, {}).get(b, 2) for b in bonds) + ((phys,) if phys else ())
+            ts.append(qtn.Tensor(arr(mk, name, shape, kind), inds, tags=[name, s]))
     tn = qtn.TensorNetworkGenVector.from_TN(qtn.TensorNetwork(ts), site_tag_id="I{}", site_ind_id="k{}", sites=tuple(range(len(sites))))
     return tn, tuple(sites)
 
@@ -1136,7 +1199,7 @@ def l2bp_exact(mk, geom, norm, update):
         bp = l2bp.L2BP(tn, local_convergence=lc, **kw)
         info = {}
         bp.run(info=info, **ro)
-        mk.same(f"local_convergence={lc}: last round changed nothing (max_mdiff == 0)", info["max_mdiff"], 0.0)
+        converged_goal(mk, f"local_convergence={lc}: last round changed nothing (max_mdiff == 0)", info)
         l2_messages_exact(mk, bp, bp.tn, fg, f"L2BP lc={lc}")
     mk.eq("L2BP.contract(strip_exponent=True) == <psi|psi>", value(bp.contract(strip_exponent=True)), N2)
     for i in range(len(sites)):
@@ -1173,3 +1236,263 @@ def l2bp_signed(mk, geom, kind):
     if not mk.sym:
         mk.eq(f"[numeric-only] L2BP.contract() on {kind} data == <psi|psi>", bp.contract(), N2)
         mk.eq(f"[numeric-only] contract_l2bp on {kind} data, library defaults", l2bp.contract_l2bp(tn, site_tags=sites, tol=1e-13, max_iterations=60), N2)
+
+
+# ---------------------------------------------------------------------- (d) gauging / compressing with BP messages, no truncation
+
+class ProjectorHook:
+    """observation hook: records the (Pl, Pr) pairs returned by the real quimb.tensor.decomp.compute_oblique_projectors
+    while a compress / gauge routine runs (behaviour unchanged)"""
+
+    def __enter__(self):
+        self.rec = []
+        self.real = qtn.decomp.compute_oblique_projectors
+
+        def hook(*a, **k):
+            r = self.real(*a, **k)
+            self.rec.append(r)
+            return r
+
+        qtn.decomp.compute_oblique_projectors = hook
+        return self
+
+    def __exit__(self, *exc):
+        qtn.decomp.compute_oblique_projectors = self.real
+
+
+def projector_lemmas(mk, rec, tag):
+    """for every recorded projector pair: goal  Pr @ Pl == 1  (certified modulo the LAPACK contracts: Pr Pl =
+    s^-1/2 U^dag (Rl Rr) V s^-1/2 with U s V^dag the SVD of Rl Rr).  Both are square (no truncation), and a square matrix
+    with a left inverse has it as right inverse (finite-dimensional linear algebra): Pl @ Pr == 1 is handed to the
+    certificate search as a derived fact -- the reverse direction XY = 1 |- YX = 1 is the 'inversion principle', which has no
+    low-degree Nullstellensatz certificate."""
+    for k, pr in enumerate(rec):
+        Pl, Pr = pr[0], pr[-1]
+        n = Pl.shape[0]
+        mk.same(f"{tag}: projector pair {k} is square (nothing truncated)", (tuple(Pl.shape), tuple(Pr.shape)), ((n, n), (n, n)))
+        mk.eq(f"{tag}: projector pair {k}: Pr @ Pl == identity", ref.matmul(Pr, Pl), ref.eye(n, like=Pl))
+        if mk.sym:
+            g = ref.matmul(Pl, Pr) - ref.eye(n, like=Pl)
+            for idx in np.ndindex(*g.shape):
+                P.HYP_DERIVED.append((f"square-inverse lemma {tag} pair {k} {idx}", P.lift(g[idx])))
+
+
+def dense_state(tn, n):
+    return ref.tn_dense(tn, tuple(f"k{i}" for i in range(n)))
+
+
+_DG = [{"op": o, "geom": g, "kind": k, "_tiers": _Q if (g, k) == ("pair", "real") and o in ("gauge_temp", "compress") else _T}
+       for o in ("gauge_temp", "gauge_insert_raw", "gauge_insert_inverse", "compress", "gauge_symmetric")
+       for g, k in (("pair", "pos"), ("pair", "real"), ("pair", "cplx"), ("path3", "real"))
+       if not (o in ("compress", "gauge_symmetric") and k == "pos")]      # (positive = invertible symbols blow up the quotient closure)
+
+
+@obligation(PROP, params=_DG, rounds=2, max_rows=60000, wall_s=600, timeout_s=700, solver_timeout_ms=300000)
+def d2bp_gauge_compress(mk, op, geom, kind):
+    """D2BP gauge_temp / gauge_insert / compress / gauge_symmetric with converged messages and no truncation
+    (max_bond=None, cutoff=0): the denoted state is unchanged.  eigh / svd are contract stubs (message matrices are
+    positive definite for a generic state: eigenvalues are positive symbols)."""
+    mk.encodes(d2bp.D2BP.gauge_insert, d2bp.D2BP.gauge_temp, d2bp.D2BP.compress, d2bp.D2BP.gauge_symmetric,
+               qtn.decomp.squared_op_to_reduced_factor, qtn.decomp.compute_oblique_projectors)
+    stubs.OPTIONS["eigh_spectrum"] = "pos"
+    try:
+        tn, n = build2(mk, geom, kind)
+        psi = dense_state(tn, n)
+        bp = d2bp.converge_d2bp(tn, normalize=ntrace, distance=sdist, max_iterations=n + 1, tol=0.0)
+        site = "I1" if geom == "path3" else "I0"
+        if op == "gauge_temp":
+            # temporary gauging of a sub-network: insert sqrt(message) on its boundary, take it out again
+            sub = bp.tn.select_any([site])
+            before = {tid: t.data.copy() for tid, t in sub.tensor_map.items()}
+            with bp.gauge_temp(sub) as outer:
+                mk.same("gauge_temp gauges every boundary bond of the sub-network", sorted(ix for _, ix, _ in outer),
+                        sorted(ix for ix in sub.outer_inds() if not ix.startswith("k")))
+            for tid, t in sub.tensor_map.items():
+                mk.eq(f"gauge_temp({site}) round trip leaves the tensor unchanged", t.data, before[tid])
+            mk.eq("gauge_temp: the whole state is unchanged afterwards", dense_state(bp.tn, n), psi)
+        elif op in ("gauge_insert_raw", "gauge_insert_inverse"):
+            sub = bp.tn.select_any([site]).copy()
+            orig = {tid: t.copy() for tid, t in sub.tensor_map.items()}
+            how = op.rsplit("_", 1)[1]
+            outer = bp.gauge_insert(sub, smudge=0.0, return_gauges=how)
+            mk.same("gauge_insert gauges every boundary bond of the sub-network", sorted(ix for _, ix, _ in outer),
+                    sorted(ix for ix in sub.outer_inds() if not ix.startswith("k")))
+            if how == "raw":
+                want = {tid: t.copy() for tid, t in orig.items()}
+                for t, ix, g in outer:
+                    (tid,) = sub.ind_map[ix]
+                    mk.eq(f"gauge_insert: raw gauge on {ix} squares to the message (g^dag g == m)", ref.matmul(ref.dag(g), g), bp.messages[ix, tid])
+                    want[tid].gate_(g, ix)
+                for tid, t in sub.tensor_map.items():
+                    mk.eq("gauge_insert: the gauged tensor is the original with the returned raw gauges applied",
+                          t.transpose(*want[tid].inds).data, want[tid].data)
+            else:
+                for t, ix, ginv in outer:
+                    t.gate_(ginv, ix)
+                for tid, t in sub.tensor_map.items():
+                    mk.eq("gauge_insert: applying the returned inverse gauges restores the tensor", t.transpose(*orig[tid].inds).data, orig[tid].data)
+        elif op == "compress":
+            with ProjectorHook() as h:
+                tn2 = bp.compress(max_bond=None, cutoff=0.0)
+            projector_lemmas(mk, h.rec, "compress")
+            mk.same("compress keeps the geometry", (tn2.num_tensors, sorted(tn2.outer_inds())), (tn.num_tensors, sorted(tn.outer_inds())))
+            mk.eq("D2BP.compress(max_bond=None, cutoff=0.0): dense state unchanged", dense_state(tn2, n), psi)
+        else:
+            with ProjectorHook() as h:
+                tn3 = bp.gauge_symmetric()
+            projector_lemmas(mk, h.rec, "gauge_symmetric")
+            mk.eq("D2BP.gauge_symmetric(): dense state unchanged", dense_state(tn3, n), psi)
+    finally:
+        stubs.OPTIONS["eigh_spectrum"] = "real"
+
+
+_DE = [{"entry": e, "geom": "pair", "kind": "real", "_tiers": _Q if e in ("compress_d2bp", "gauge_all_belief_propagation") else _T}
+       for e in ("compress_d2bp", "gauge_d2bp", "gauge_all_belief_propagation", "compress_l2bp", "L2BP.compress")] + \
+      [{"entry": e, "geom": "path3", "kind": "pos", "_tiers": _T} for e in ("compress_d2bp", "compress_l2bp")]
+
+
+@obligation(PROP, params=_DE, rounds=2, max_rows=60000, wall_s=600, timeout_s=700, solver_timeout_ms=300000)
+def bp_gauge_entry_points(mk, entry, geom, kind):
+    """compress_d2bp / gauge_d2bp / TensorNetwork.gauge_all_belief_propagation / compress_l2bp / L2BP.compress: BP run + gauge
+    in one call, no truncation: the denoted state is unchanged"""
+    mk.encodes(d2bp.compress_d2bp, d2bp.gauge_d2bp, qtn.TensorNetwork.gauge_all_belief_propagation, l2bp.compress_l2bp, l2bp.L2BP.compress,
+               d2bp.D2BP.compress, qtn.decomp.compute_oblique_projectors, qtn.decomp.squared_op_to_reduced_factor)
+    stubs.OPTIONS["eigh_spectrum"] = "pos"
+    try:
+        tn, n = build2(mk, geom, kind)
+        psi = dense_state(tn, n)
+        run = dict(normalize=ntrace, distance=sdist, max_iterations=n + 1, tol=0.0)
+        sites = tuple(f"I{i}" for i in range(n))
+        with ProjectorHook() as h:
+            if entry == "compress_d2bp":
+                tn2 = d2bp.compress_d2bp(tn, max_bond=None, cutoff=0.0, **run)
+            elif entry == "gauge_d2bp":
+                tn2 = d2bp.gauge_d2bp(tn, **run)
+            elif entry == "gauge_all_belief_propagation":
+                tn2 = tn.gauge_all_belief_propagation(**run)
+            elif entry == "compress_l2bp":
+                tn2 = l2bp.compress_l2bp(tn, max_bond=None, cutoff=0.0, site_tags=sites, normalize=ntrace, distance=sdist,
+                                         max_iterations=n + 1, tol=0.0)
+            else:
+                bp = l2bp.L2BP(tn, site_tags=sites, normalize=ntrace, distance=sdist)
+                bp.run(max_iterations=n + 1, tol=0.0)
+                tn2 = bp.compress(tn.copy(), max_bond=None, cutoff=0.0)
+        projector_lemmas(mk, h.rec, entry)
+        mk.same(f"{entry}: one projector pair per bond", len(h.rec), len([ix for ix, ts in tn.ind_map.items() if len(ts) == 2]))
+        mk.same(f"{entry}: outer labels kept", sorted(tn2.outer_inds()), sorted(tn.outer_inds()))
+        mk.eq(f"{entry}(no truncation): dense state unchanged", dense_state(tn2, n), psi)
+        mk.eq(f"{entry}: the input network is not modified (inplace=False)", dense_state(tn, n), psi)
+    finally:
+        stubs.OPTIONS["eigh_spectrum"] = "real"
+
+
+# ---------------------------------------------------------------------- remaining cells
+
+@obligation(PROP, params=[{"geom": g, "kind": k, "_tiers": _Q if (g, k) == ("hyper3", "cplx") else _T}
+                          for g in ("pair", "hyper3") for k in ("real", "cplx")], wall_s=400, timeout_s=500, max_paths=300)
+def hv1bp_signed(mk, geom, kind):
+    """HV1BP on signed real / complex data (in-place callable normaliser without absolute values)"""
+    mk.encodes(hv1bp.HV1BP, hv1bp.HV1BP.iterate, hv1bp.HV1BP.contract, hv1bp.HV1BP.get_messages_dense, hv1bp._gather_zb)
+    tn = build1(mk, geom, kind)
+    fg = FG(tn)
+    Z = fg.z()
+    init = {}
+    tags = {tid: sorted(t.tags)[0] for tid, t in tn.tensor_map.items()}
+    for tid, t in tn.tensor_map.items():
+        for ix in t.inds:
+            init[tid, ix] = arr(mk, f"u_{tags[tid]}_{ix}", (t.ind_size(ix),), kind)
+            init[ix, tid] = arr(mk, f"v_{ix}_{tags[tid]}", (t.ind_size(ix),), kind)
+    bp = hv1bp.HV1BP(tn, messages=init, normalize=nsum_batched, distance=sdist, smudge_factor=0.0)
+    bp.run(max_iterations=tn.num_tensors + 1, tol=0.0)
+    msgs = bp.get_messages_dense()
+    hyper_messages_exact(mk, msgs, bp.tn, fg, f"HV1BP {kind}")
+    marginal_goals(mk, bp.tn, msgs, fg, f"HV1BP {kind}")
+    if geom == "pair":
+        mk.eq(f"HV1BP.contract() on {kind} data == exact value", bp.contract(), Z)
+    elif not mk.sym:
+        mk.eq(f"[numeric-only] HV1BP.contract() on {kind} data == exact value", bp.contract(), Z)
+
+
+_GL = [{"flavour": f, "geom": g, "signs": sg, "_tiers": _Q if g == "path3" else _T}
+       for f in ("D1BP", "HD1BP", "D2BP") for g in ("path3", "star4") for sg in ("pos", "negleaf")]
+
+
+@obligation(PROP, params=_GL, wall_s=200, timeout_s=300)
+def gloop_expand_supplement(mk, flavour, geom, signs):
+    """NUMERIC-ONLY supplement: contract_gloop_expand (generalised-loop / region expansion entry points) on a tree with
+    explicit regions, at the BP fixed point.  These routines first call normalize_message_pairs / normalize_messages, which take
+    the powers 1/4 and 1/len of message overlaps: not representable by the polynomial engine.  Their ingredients
+    (gen_region_counts, get_cluster, combine_local_contractions) are covered symbolically by region_counting /
+    region_counting_hyper.  In symbolic mode this obligation only checks the counting numbers that the routine derives from the
+    supplied regions.  signs='pos': positive entries; 'negleaf': positive entries with one leaf tensor negated (real signed
+    data whose message overlap on that bond is negative)."""
+    mk.encodes(regions.gen_region_counts, d1bp.D1BP.contract_gloop_expand, hd1bp.HD1BP.contract_gloop_expand, d2bp.D2BP.contract_gloop_expand,
+               bp_common.normalize_message_pair, d1bp.D1BP.normalize_message_pairs, hd1bp.HD1BP.normalize_messages)
+    if flavour == "D2BP":
+        tn, n = build2(mk, geom, "pos")
+    else:
+        tn = build1(mk, geom, "pos")
+    leaf = next(t for t in tn.tensor_map.values() if sum(1 for ix in t.inds if len(tn.ind_map[ix]) == 2) == 1)
+    if signs == "negleaf":
+        leaf.modify(data=leaf.data * (-1))
+    want = FG2(tn).norm2() if flavour == "D2BP" else FG(tn).z()
+    tids = list(tn.tensor_map)
+    _, edges = GEOMS2[geom]
+    gl = [tuple(tids[i] for i in e) for e in edges]
+    rc = dict(regions.gen_region_counts(gl + [(t,) for t in tids]))
+    deg = {t: sum(1 for e in gl if t in e) for t in tids}
+    mk.same("counting numbers of the edge regions of a tree: edges 1, tensors 1 - degree",
+            rc, {**{frozenset(e): 1 for e in gl}, **{frozenset([t]): 1 - deg[t] for t in tids if deg[t] != 1}})
+    if mk.sym:
+        mk.note("numeric-only: contract_gloop_expand (fractional powers in normalize_message_pairs / normalize_messages)")
+        return
+    import warnings
+    with warnings.catch_warnings():
+        warnings.simplefilter("ignore")
+        if flavour == "D1BP":
+            def conv():
+                bp = d1bp.D1BP(tn)
+                bp.run(tol=1e-13, max_iterations=60)
+                return bp
+            mk.eq("[numeric-only] D1BP.contract() == exact value", conv().contract(), want)
+            for ar_ in (False, True):
+                for comb in ("prod", "sum"):
+                    mk.eq(f"[numeric-only] D1BP.contract_gloop_expand(gloops=edges, autoreduce={ar_}, combine='{comb}') == exact value",
+                          conv().contract_gloop_expand(gloops=gl, autoreduce=ar_, combine=comb), want)
+            mk.eq("[numeric-only] D1BP.contract_gloop_expand() (no loops on a tree) == exact value", conv().contract_gloop_expand(), want)
+            bp = conv()
+            bp.normalize_message_pairs()
+            for ix in bp.tn.ind_map:
+                mk.eq(f"[numeric-only] normalize_message_pairs: <m_i|m_j> == 1 on bond {ix} (documented)", bp.local_message_contract(ix), 1.0)
+        elif flavour == "HD1BP":
+            bp = hd1bp.HD1BP(tn, smudge_factor=0.0)
+            bp.run(tol=1e-13, max_iterations=80)
+            mk.eq("[numeric-only] HD1BP.contract() == exact value", bp.contract(), want)
+            with np.errstate(all="ignore"):
+                got = bp.contract_gloop_expand(gloops=gl + [(t,) for t in tids])
+            mk.eq("[numeric-only] HD1BP.contract_gloop_expand(gloops=edges + tensors) == exact value", got, want)
+        else:
+            bp = d2bp.converge_d2bp(tn, tol=1e-13, max_iterations=60)
+            mk.eq("[numeric-only] D2BP.contract_gloop_expand(gloops=edges) == <psi|psi>", bp.contract_gloop_expand(gloops=gl), want)
+            bp = d2bp.converge_d2bp(tn, tol=1e-13, max_iterations=60)
+            mk.eq("[numeric-only] D2BP.contract_gloop_expand() (no loops on a tree) == <psi|psi>", bp.contract_gloop_expand(), want)
+
+
+@obligation(PROP, params=[{"flavour": f, "geom": g} for f in ("HD1BP", "HV1BP") for g in ("path3", "hyper3")], tiers=_T, wall_s=400, timeout_s=500)
+def hyper_dims(mk, flavour, geom):
+    """bond dimension 3 for the hyper flavours"""
+    mk.encodes(hd1bp.HD1BP, hv1bp.HV1BP, bp_common.compute_index_marginal, bp_common.compute_tensor_marginal)
+    tn = build1(mk, geom, "pos", D=3)
+    fg = FG(tn)
+    Z = fg.z()
+    if flavour == "HD1BP":
+        bp = hd1bp.HD1BP(tn, normalize=nl1, distance=sdist, smudge_factor=0.0)
+        bp.run(**run_opts(mk, tn, hyper=True))
+        msgs = bp.messages
+    else:
+        bp = hv1bp.HV1BP(tn, messages=bp_common.initialize_hyper_messages(tn, smudge_factor=0.0), normalize=l1_batched, distance=sdist, smudge_factor=0.0)
+        bp.run(max_iterations=tn.num_tensors + 1, tol=0.0)
+        msgs = bp.get_messages_dense()
+    hyper_messages_exact(mk, msgs, bp.tn, fg, f"{flavour} D=3")
+    marginal_goals(mk, bp.tn, msgs, fg, f"{flavour} D=3")
+    mk.eq(f"{flavour}.contract() with bond dimension 3 == exact value", bp.contract(), Z)
